@@ -22,16 +22,17 @@ import (
 // upgrade request. All times are virtual milliseconds and multiples of 10, so
 // they never coincide with a context end or a dial timeout (see scenario).
 type peerScript struct {
-	Resp    string `json:"resp"`               // valid | status400 | badaccept | noupgrade | garbage
-	Cuts    []int  `json:"cuts,omitempty"`     // permille positions at which the response is split into chunks
-	Gaps    []int  `json:"gaps,omitempty"`     // delay before chunk j (relative to the previous delivery / the request); missing = 0
-	Deliver int    `json:"deliver"`            // number of chunks that are delivered; <0 = all, 0 = silent peer
-	EOF     bool   `json:"eof,omitempty"`      // the peer closes its side after the delivered chunks
-	Tail    int    `json:"tail,omitempty"`     // bytes of frame data following the response in its last chunk
-	Gate    int    `json:"gate,omitempty"`     // the peer starts accepting writes at this time after connect; <0 = never
-	TLS     bool   `json:"tls_peer,omitempty"` // the client speaks TLS: the peer reacts to the first bytes written (the ClientHello) with Garbage bytes that are no TLS record
-	Garbage int    `json:"garbage,omitempty"`
-	SlowDL  bool   `json:"slow_set_deadline,omitempty"` // every Set*Deadline call takes slowDL of virtual time before it takes effect
+	Resp       string `json:"resp"`               // valid | status400 | badaccept | noupgrade | garbage
+	Cuts       []int  `json:"cuts,omitempty"`     // permille positions at which the response is split into chunks
+	Gaps       []int  `json:"gaps,omitempty"`     // delay before chunk j (relative to the previous delivery / the request); missing = 0
+	Deliver    int    `json:"deliver"`            // number of chunks that are delivered; <0 = all, 0 = silent peer
+	EOF        bool   `json:"eof,omitempty"`      // the peer closes its side after the delivered chunks
+	Tail       int    `json:"tail,omitempty"`     // bytes of frame data following the response in its last chunk
+	Gate       int    `json:"gate,omitempty"`     // the peer starts accepting writes at this time after connect; <0 = never
+	TLS        bool   `json:"tls_peer,omitempty"` // the client speaks TLS: the peer reacts to the first bytes written (the ClientHello) with Garbage bytes that are no TLS record
+	Garbage    int    `json:"garbage,omitempty"`
+	TimeoutErr string `json:"timeout_err,omitempty"`       // shape of the conn's deadline error: "" | nottemp | operror
+	SlowDL     bool   `json:"slow_set_deadline,omitempty"` // every Set*Deadline call takes slowDL of virtual time before it takes effect
 }
 
 // slowDL is the latency of a slow Set*Deadline call. It is far below the 1 ms
@@ -129,6 +130,25 @@ func (timeoutError) Is(target error) bool {
 }
 
 var _ net.Error = timeoutError{}
+
+// timeoutNotTemp is a timeout that does not call itself temporary (as
+// context-style deadline errors of some transports do).
+type timeoutNotTemp struct{ timeoutError }
+
+func (timeoutNotTemp) Temporary() bool { return false }
+
+// timeoutErr is what an I/O call on an expired deadline returns: the plain
+// value (Timeout and Temporary, like os.ErrDeadlineExceeded), a timeout that
+// is not temporary, or the standard library's shape, a *net.OpError around it.
+func (c *fakeConn) timeoutErr(op string) error {
+	switch c.script.TimeoutErr {
+	case "nottemp":
+		return timeoutNotTemp{}
+	case "operror":
+		return &net.OpError{Op: op, Net: "scripted", Addr: fakeAddr("peer"), Err: timeoutError{}}
+	}
+	return timeoutError{}
+}
 
 // fatalError ends a runaway: neither a timeout nor temporary.
 type fatalError struct{ n int }
@@ -345,7 +365,7 @@ func (c *fakeConn) read(p []byte) (int, error) {
 			c.mu.Unlock()
 			return 0, err
 		case expired(c.rd):
-			err := c.deadLocked(timeoutError{})
+			err := c.deadLocked(c.timeoutErr("read"))
 			c.mu.Unlock()
 			return 0, err
 		case len(p) == 0:
@@ -388,7 +408,7 @@ func (c *fakeConn) write(p []byte) (int, error) {
 			c.mu.Unlock()
 			return 0, err
 		case expired(c.wd):
-			err := c.deadLocked(timeoutError{})
+			err := c.deadLocked(c.timeoutErr("write"))
 			c.mu.Unlock()
 			return 0, err
 		case c.eof:
